@@ -4,11 +4,13 @@ package c02
 
 import (
 	"fmt"
+	"os"
 	"reflect"
 	"strings"
 	"testing"
 
 	ucfg "github.com/elastic/go-ucfg"
+	"github.com/elastic/go-ucfg/parse"
 	"pgregory.net/rapid"
 
 	"verif/harness/internal/canon"
@@ -35,12 +37,29 @@ type Case struct {
 	EnvOrder []int `json:"env_order,omitempty"`
 	// Sep: the path separator of the case ("" = "."); every name in the case is spelled with it
 	Sep string `json:"sep,omitempty"`
+	// ResOrder: the resolver options of every call, in the order given: i >= 0 is the Resolve option of table i
+	// (an index may occur more than once: the same Option value given again, or not at all), -1 is ResolveEnv
+	// (the process environment, see EnvVars). Empty: Resolve(table 0), Resolve(table 1), ... and no ResolveEnv.
+	ResOrder []int `json:"res_order,omitempty"`
+	// EnvVars: variables of the process environment while the case runs (set before the first merge, removed at
+	// the end); a variable with an empty value counts as unset (documented behaviour of ResolveEnv)
+	EnvVars []vx.KV `json:"env_vars,omitempty"`
+	// OptLayout: where the options stand in the option list of every call. bit 0: the resolver options stand
+	// before the Env options; bit 1: PathSep and VarExp stand at the end of the list instead of the front
+	OptLayout int `json:"opt_layout,omitempty"`
 }
 
 type Later struct {
 	Resolvers [][]vx.KV  `json:"resolvers,omitempty"`
 	EnvLayers []*vx.Node `json:"env_layers,omitempty"`
+	// EnvVars: the process environment after the change (replaces Case.EnvVars completely)
+	EnvVars []vx.KV `json:"env_vars,omitempty"`
+	// SetEnvVars: false = the process environment stays as it is
+	SetEnvVars bool `json:"set_env_vars,omitempty"`
 }
+
+// envResolver marks ResolveEnv in Case.ResOrder.
+const envResolver = -1
 
 func genCase(t *rapid.T) Case {
 	sep := rapid.SampledFrom([]string{"", "", "", "/", "->", "|"}).Draw(t, "sep")
@@ -70,13 +89,39 @@ func genCase(t *rapid.T) Case {
 	for i, n := 0, rapid.IntRange(0, 3).Draw(t, "nres"); i < n; i++ {
 		c.Resolvers = append(c.Resolvers, g.GenResolver(t))
 	}
-	if len(c.Envs)+len(c.Resolvers) > 0 && rapid.IntRange(0, 2).Draw(t, "later") == 0 {
+	// the kinds and the order of the resolver options: ResolveEnv (the process environment) stands anywhere among
+	// the Resolve options, a Resolve option may be given again (it then counts as added most recently) or be left out
+	if rapid.IntRange(0, 2).Draw(t, "reskinds") == 0 {
+		for i := range c.Resolvers {
+			c.ResOrder = append(c.ResOrder, i)
+		}
+		for i, n := 0, rapid.SampledFrom([]int{1, 1, 1, 2}).Draw(t, "nresenv"); i < n; i++ {
+			at := rapid.IntRange(0, len(c.ResOrder)).Draw(t, "resenvat")
+			c.ResOrder = append(c.ResOrder[:at], append([]int{envResolver}, c.ResOrder[at:]...)...)
+		}
+		if len(c.Resolvers) > 0 && rapid.IntRange(0, 3).Draw(t, "resagain") == 0 {
+			c.ResOrder = append(c.ResOrder, rapid.IntRange(0, len(c.Resolvers)-1).Draw(t, "residx"))
+		}
+		if len(c.Resolvers) > 1 && rapid.IntRange(0, 7).Draw(t, "resdrop") == 0 {
+			at := rapid.IntRange(0, len(c.ResOrder)-1).Draw(t, "resdropat")
+			if c.ResOrder[at] != envResolver {
+				c.ResOrder = append(c.ResOrder[:at], c.ResOrder[at+1:]...)
+			}
+		}
+		c.EnvVars = genEnvVars(t, sep)
+	}
+	c.OptLayout = rapid.SampledFrom([]int{0, 0, 0, 1, 2, 3}).Draw(t, "optlayout")
+	if len(c.Envs)+len(c.Resolvers)+len(c.ResOrder) > 0 && rapid.IntRange(0, 2).Draw(t, "later") == 0 {
 		c.Later = &Later{}
 		for range c.Resolvers {
 			c.Later.Resolvers = append(c.Later.Resolvers, g.GenResolver(t))
 		}
 		for range c.Envs {
 			c.Later.EnvLayers = append(c.Later.EnvLayers, g.GenEnvLayer(t))
+		}
+		if len(c.ResOrder) > 0 && rapid.IntRange(0, 3).Draw(t, "laterenvvars") > 0 {
+			c.Later.SetEnvVars = true
+			c.Later.EnvVars = genEnvVars(t, sep)
 		}
 	}
 	c.ReadNoSep = rapid.IntRange(0, 3).Draw(t, "readnosep") == 0
@@ -114,7 +159,112 @@ func genCase(t *rapid.T) Case {
 		trees = append(trees, c.Later.EnvLayers...)
 	}
 	vx.Lighten(20000, trees...)
+	// literal text that looks like syntax: ':' ':+' ':?' '+' '?' inside the text right of an operator and
+	// outside of any expansion, where they are ordinary characters
+	for _, tr := range trees {
+		decorate(t, tr)
+	}
+	// what resolvers hand out is taken as it is: text that looks like a reference or an escape stays that text
+	tables := append([][]vx.KV{}, c.Resolvers...)
+	if c.Later != nil {
+		tables = append(tables, c.Later.Resolvers...)
+	}
+	for _, tb := range tables {
+		for i := range tb {
+			if !g.NoDollar && rapid.IntRange(0, 7).Draw(t, "rawval") == 0 {
+				tb[i].V = rapid.SampledFrom(rawVals).Draw(t, "rawv")
+			}
+		}
+	}
 	return c
+}
+
+// rawVals: answers of resolvers (and values of environment variables) that look like expansion syntax.
+var rawVals = []string{"${r2}", "x:+y", "$$", "a$}b", "${zz:d}", "u://h:1/f:?q"}
+
+var envVals = []string{"ev", "7", "", "p,q", "false", " e ", "{k: 1}", "-1", "${r2}", "x:+y", "s3cr,et,[x]", "'q'"}
+
+// nm spells a name (given with ".") with the separator of the case.
+func nm(sep, name string) string {
+	if sep == "" || sep == "." {
+		return name
+	}
+	return strings.ReplaceAll(name, ".", sep)
+}
+
+// genEnvVars draws variables of the process environment over the names the resolver tables use, names of own
+// settings and of Env configs (which the trees shadow) and a three-segment name.
+func genEnvVars(t *rapid.T, sep string) []vx.KV {
+	var out []vx.KV
+	for _, k := range []string{"r1", "r2", "both", "a", "zz", "o.x", "e1", "p.x.y"} {
+		if rapid.IntRange(0, 2).Draw(t, "envvarhas") == 0 {
+			out = append(out, vx.KV{K: nm(sep, k), V: rapid.SampledFrom(envVals).Draw(t, "envval"), C: 2})
+		}
+	}
+	return out
+}
+
+// synLits: literal text made of the characters of the operator syntax. Right of an operator and outside of any
+// expansion these are ordinary characters and have to come out as written.
+var synLits = []string{":", ":+", ":?", "a:b", "+", "?", "::", ":+:?", "u://h:1/f:?q=a:+b", ":-", "k:+v", "\u00e9:?"}
+
+// decorate inserts literal text from synLits into the expressions of a tree: at the top level of a string and
+// into the right-hand sides of operators at every depth (never into names).
+func decorate(t *rapid.T, n *vx.Node) {
+	if n == nil {
+		return
+	}
+	if n.K == "expr" {
+		n.Expr = decorateParts(t, n.Expr, 5)
+	}
+	for _, v := range n.Vals {
+		decorate(t, v)
+	}
+}
+
+func decorateParts(t *rapid.T, ps []vx.Part, odds int) []vx.Part {
+	out := append([]vx.Part(nil), ps...)
+	if rapid.IntRange(0, odds).Draw(t, "synlit") == 0 {
+		at := rapid.IntRange(0, len(out)).Draw(t, "synat")
+		lit := vx.Part{Lit: rapid.SampledFrom(synLits).Draw(t, "syn")}
+		out = append(out[:at], append([]vx.Part{lit}, out[at:]...)...)
+	}
+	for i := range out {
+		if out[i].IsVar {
+			out[i] = decorateVar(t, out[i])
+		}
+	}
+	// adjacent literals are one literal
+	var merged []vx.Part
+	for _, p := range out {
+		if !p.IsVar && len(merged) > 0 && !merged[len(merged)-1].IsVar {
+			merged[len(merged)-1].Lit += p.Lit
+			continue
+		}
+		if p.IsVar || p.Lit != "" {
+			merged = append(merged, p)
+		}
+	}
+	return merged
+}
+
+func decorateVar(t *rapid.T, p vx.Part) vx.Part {
+	// names keep their text; expansions inside a computed name have right-hand sides of their own
+	name := append([]vx.Part(nil), p.Name...)
+	for i := range name {
+		if name[i].IsVar {
+			name[i] = decorateVar(t, name[i])
+		}
+	}
+	p.Name = name
+	if p.Op != "" {
+		p.Right = decorateParts(t, p.Right, 3)
+		// "${x:" followed by '+' or '?' would spell another operator: such a default starts with ':' instead
+		if p.Op == ":" && len(p.Right) > 0 && !p.Right[0].IsVar && (strings.HasPrefix(p.Right[0].Lit, "+") || strings.HasPrefix(p.Right[0].Lit, "?")) {
+			p.Right[0].Lit = ":" + p.Right[0].Lit
+		}
+	}
+	return p
 }
 
 func unpackField(c *ucfg.Config, key string, opts []ucfg.Option) (interface{}, error) {
@@ -169,6 +319,47 @@ func carries(err error, msg string) bool {
 		err = e.Reason()
 	}
 	return false
+}
+
+// Finding D78 (repaired in /repo, 3856e01): a name of three or more segments that only a resolver knows is not
+// looked up in the resolvers when the tree consulted last (the oldest Env config; the own tree when there is
+// none) holds a primitive at the first segment: the read fails although the resolver knows the name; with
+// two segments, or with one more (unrelated) Env config, the resolver answers. Strict by default; only while the
+// finding were listed as open the class would be constructed away (environment variables with such names not set).
+func nC021Open() bool { return runlog.IsOpen("D78") }
+
+// dropDeep removes the variables whose names have three or more segments.
+func dropDeep(vars []vx.KV, sep string) ([]vx.KV, bool) {
+	if sep == "" {
+		sep = "."
+	}
+	var out []vx.KV
+	dropped := false
+	for _, kv := range vars {
+		if strings.Count(kv.K, sep) >= 2 {
+			dropped = true
+			continue
+		}
+		out = append(out, kv)
+	}
+	return out, dropped
+}
+
+func isErrMsg(err error) bool { _, ok := err.(*vx.ErrMsg); return ok }
+
+// rightHasSyntaxText reports whether some right-hand side in the setting contains a ':' as literal text.
+func rightHasSyntaxText(n *vx.Node) bool {
+	return n.AnyPart(func(p *vx.Part) bool {
+		if !p.IsVar || p.Op == "" {
+			return false
+		}
+		for _, q := range p.Right {
+			if !q.IsVar && strings.Contains(q.Lit, ":") {
+				return true
+			}
+		}
+		return false
+	})
 }
 
 // altOnEmpty reports whether the tree contains ${x:+a}: "set" is ambiguous in
@@ -237,16 +428,159 @@ func earlyBound(old, layer *vx.Node) bool {
 	return false
 }
 
+// resolverOpts: the resolver options of a call in the order of the case.
+func (c Case) resolverOpts(live *vx.Live) []ucfg.Option {
+	if len(c.ResOrder) == 0 {
+		return live.ResOpts
+	}
+	var out []ucfg.Option
+	for _, i := range c.ResOrder {
+		switch {
+		case i == envResolver:
+			out = append(out, ucfg.ResolveEnv)
+		case i >= 0 && i < len(live.ResOpts):
+			out = append(out, live.ResOpts[i])
+		}
+	}
+	return out
+}
+
+// options: the option list of a call. envOrder lists the Env options (nil: each once, in order).
+func (c Case) options(live *vx.Live, envOrder []int, withSep bool) []ucfg.Option {
+	var head, envs []ucfg.Option
+	if withSep {
+		head = append(head, ucfg.PathSep(live.Sep))
+	}
+	head = append(head, ucfg.VarExp)
+	if envOrder == nil {
+		envs = live.EnvOpts
+	}
+	for _, i := range envOrder {
+		if i >= 0 && i < len(live.EnvOpts) {
+			envs = append(envs, live.EnvOpts[i])
+		}
+	}
+	res := c.resolverOpts(live)
+	var body []ucfg.Option
+	if c.OptLayout&1 != 0 {
+		body = append(append(body, res...), envs...)
+	} else {
+		body = append(append(body, envs...), res...)
+	}
+	if c.OptLayout&2 != 0 {
+		return append(body, head...)
+	}
+	return append(head, body...)
+}
+
+// envTable is the process environment as a resolver table: ResolveEnv answers with the value of the variable
+// named like the reference and parse.EnvConfig; an empty value counts as unset. Variables the case did not set
+// are part of the table as well (the model sees what the library sees).
+func envTable(vars []vx.KV) []vx.KV {
+	var out []vx.KV
+	mine := map[string]bool{}
+	for _, kv := range vars {
+		mine[kv.K] = true
+		if kv.V != "" {
+			out = append(out, vx.KV{K: kv.K, V: kv.V, C: 2})
+		}
+	}
+	for _, e := range ambientEnv {
+		if i := strings.Index(e, "="); i > 0 && !mine[e[:i]] && e[i+1:] != "" {
+			out = append(out, vx.KV{K: e[:i], V: e[i+1:], C: 2})
+		}
+	}
+	return out
+}
+
+// ambientEnv: the process environment the worker was started with (cases restore it when they end).
+var ambientEnv = os.Environ()
+
+// modelResolvers: the resolver tables in the order the options of the case add them.
+func (c Case) modelResolvers(tables [][]vx.KV, envVars []vx.KV) [][]vx.KV {
+	if len(c.ResOrder) == 0 {
+		return tables
+	}
+	var out [][]vx.KV
+	for _, i := range c.ResOrder {
+		switch {
+		case i == envResolver:
+			out = append(out, envTable(envVars))
+		case i >= 0 && i < len(tables):
+			out = append(out, tables[i])
+		}
+	}
+	return out
+}
+
+// setEnv sets variables of the process environment and returns the function that restores the previous state.
+func setEnv(vars []vx.KV) (func(), error) {
+	type prev struct {
+		k, v string
+		had  bool
+	}
+	var old []prev
+	restore := func() {
+		for i := len(old) - 1; i >= 0; i-- {
+			if old[i].had {
+				os.Setenv(old[i].k, old[i].v)
+			} else {
+				os.Unsetenv(old[i].k)
+			}
+		}
+	}
+	for _, kv := range vars {
+		v, had := os.LookupEnv(kv.K)
+		old = append(old, prev{kv.K, v, had})
+		if err := os.Setenv(kv.K, kv.V); err != nil {
+			restore()
+			return nil, fmt.Errorf("harness: setting the environment variable %q failed: %v", kv.K, err)
+		}
+	}
+	return restore, nil
+}
+
+func (c Case) usesEnvResolver() bool {
+	for _, i := range c.ResOrder {
+		if i == envResolver {
+			return true
+		}
+	}
+	return false
+}
+
 func runCase(c Case, r *runlog.R) error {
 	live, err := vx.OptionsLiveSep(c.Envs, c.Resolvers, c.Sep)
 	if err != nil {
 		return err
 	}
-	opts := live.Opts
-	readOpts := opts
-	if c.ReadNoSep {
-		readOpts = live.NoSep()
+	deep := false
+	if c.usesEnvResolver() {
+		var d1, d2 bool
+		vars, d1 := dropDeep(c.EnvVars, c.Sep)
+		var lvars []vx.KV
+		if c.Later != nil {
+			lvars, d2 = dropDeep(c.Later.EnvVars, c.Sep)
+		}
+		deep = d1 || d2
+		r.ClassIf(deep, "a resolver knows a name of three segments (class of D78)")
+		if deep && nC021Open() {
+			r.Excluded("D78")
+			c.EnvVars = vars
+			if c.Later != nil {
+				l := *c.Later
+				l.EnvVars = lvars
+				c.Later = &l
+			}
+		}
 	}
+	restore, err := setEnv(c.EnvVars)
+	if err != nil {
+		return err
+	}
+	defer func() { restore() }()
+	opts := c.options(live, nil, true)
+	readOpts := c.options(live, nil, !c.ReadNoSep)
 	// the Env options of the reads, in the order the case gives (every Env config at least once)
 	ordered := func(envs []*vx.Node) []*vx.Node { return envs }
 	if len(c.EnvOrder) > 0 {
@@ -260,7 +594,7 @@ func runCase(c Case, r *runlog.R) error {
 				order = append(order, i)
 			}
 		}
-		readOpts = live.WithEnvOrder(order, c.ReadNoSep)
+		readOpts = c.options(live, order, !c.ReadNoSep)
 		ordered = func(envs []*vx.Node) []*vx.Node {
 			var out []*vx.Node
 			for _, i := range order {
@@ -272,6 +606,10 @@ func runCase(c Case, r *runlog.R) error {
 		}
 		r.Class("Env options in a generated order, some given twice")
 	}
+	r.ClassIf(c.usesEnvResolver(), "ResolveEnv among the resolver options")
+	r.ClassIf(len(c.ResOrder) > 0 && c.ResOrder[len(c.ResOrder)-1] == envResolver && len(c.ResOrder) > 1, "ResolveEnv added after a Resolve option")
+	r.ClassIf(c.OptLayout&1 != 0, "resolver options before the Env options")
+	r.ClassIf(c.OptLayout&2 != 0, "PathSep/VarExp at the end of the option list")
 	cfg := ucfg.New()
 	var root *vx.Node
 	nt := false
@@ -293,7 +631,7 @@ func runCase(c Case, r *runlog.R) error {
 		} else {
 			root = vx.MergeModel(root, layer)
 		}
-		w := &vx.World{Root: root, Envs: ordered(c.Envs), Resolvers: c.Resolvers, Sep: c.Sep}
+		w := &vx.World{Root: root, Envs: ordered(c.Envs), Resolvers: c.modelResolvers(c.Resolvers, c.EnvVars), Sep: c.Sep}
 		n, err := readAll(fmt.Sprintf("after layer %d", li), c, cfg, root, w, readOpts, li > 0, r)
 		if err != nil {
 			return err
@@ -318,8 +656,19 @@ func runCase(c Case, r *runlog.R) error {
 				live.Tables[i] = t
 			}
 		}
-		w := &vx.World{Root: root, Envs: ordered(envs), Resolvers: live.Tables, Sep: c.Sep}
-		n, err := readAll("after the resolvers' answers and the Env configs changed (same Option values)", c, cfg, root, w, readOpts, true, r)
+		envVars := c.EnvVars
+		if c.Later.SetEnvVars {
+			// the process environment changes as well: the variables of the case are removed, others are set
+			restore()
+			if restore, err = setEnv(c.Later.EnvVars); err != nil {
+				restore = func() {}
+				return err
+			}
+			envVars = c.Later.EnvVars
+			r.Class("read again after the process environment changed")
+		}
+		w := &vx.World{Root: root, Envs: ordered(envs), Resolvers: c.modelResolvers(live.Tables, envVars), Sep: c.Sep}
+		n, err := readAll("after the resolvers' answers, the process environment and the Env configs changed (same Option values)", c, cfg, root, w, readOpts, true, r)
 		if err != nil {
 			return err
 		}
@@ -365,6 +714,20 @@ func readAll(when string, c Case, cfg *ucfg.Config, root *vx.Node, w *vx.World, 
 		r.ClassIf(w.Shadowed, "name present in several layers")
 		r.ClassIf(werr != nil, "model: read fails")
 		r.ClassIf(werr == nil, "model: read succeeds")
+		if len(c.ResOrder) > 1 {
+			// measure: would the read come out differently with the resolver options in the opposite order?
+			rev := &vx.World{Root: w.Root, Envs: w.Envs, Sep: w.Sep}
+			for i := len(w.Resolvers) - 1; i >= 0; i-- {
+				rev.Resolvers = append(rev.Resolvers, w.Resolvers[i])
+			}
+			want2, werr2 := rev.Eval(setting)
+			if !rev.SawCycle && ((werr == nil) != (werr2 == nil) || (werr == nil && !canon.EqualData(want, want2))) {
+				r.Class("the order of the resolver options decides the read")
+			}
+		}
+		if werr == nil || isErrMsg(werr) {
+			r.ClassIf(rightHasSyntaxText(setting), "text right of an operator contains ':' ':+' ':?' (read asserted)")
+		}
 		// typed getter
 		if setting.K != "obj" && setting.K != "list" {
 			w.Reset()
@@ -410,11 +773,249 @@ func readAll(when string, c Case, cfg *ucfg.Config, root *vx.Node, w *vx.World, 
 
 var subExpand = runlog.Register(&runlog.Sub[Case]{
 	Name: "expansion-model",
-	Rule: "own tree built by merging 1-3 layers (settings a-d, object o{x,y}, list l; later layers redefine settings), 0-3 Env configs (whose values may be expressions themselves, evaluated with the Env config as their own tree; one case in eight plants the same name computed in the own tree and in an Env config and reaches both in one read), 0-3 resolvers; string leaves are rendered expression ASTs (literals incl. $ } : { , references, nested names, : :+ :? operators, escapes) over a pool of 16 names placed in the own tree, in Env configs, in resolvers, in several layers or nowhere. After every merge each setting is read through Unpack (interface{} field), the String getter and a child handle and compared with the reference evaluator (value, typed pass-through of single references, error for unresolved names, message of :?). Reads that re-enter a reference are left to C08. Non-trivial: a read resolves a name outside the first layer consulted, meets an operator with unset/empty left side, finds a name present in several layers, or happens after a later merge. Distinct: hash of the case.",
+	Rule: "own tree built by merging 1-3 layers (settings a-d, object o{x,y}, list l; later layers redefine settings), 0-3 Env configs (whose values may be expressions themselves, evaluated with the Env config as their own tree; one case in eight plants the same name computed in the own tree and in an Env config and reaches both in one read), 0-3 resolver callbacks; string leaves are rendered expression ASTs (literals incl. $ } : { , references, nested names, : :+ :? operators, escapes) over a pool of 18 names placed in the own tree, in Env configs, in resolvers, in several layers or nowhere. Literal text made of the operator characters (: :+ :? + ? :: :- and a URL with :? and :+) is inserted at the top level of strings and into the right-hand sides of operators at every depth, where it has to come out as written (default text, alternative text, message of :?). One case in three gives the resolver options in a generated order: ResolveEnv (variables of the process environment set for the case over the names r1 r2 both a zz o.x e1 p.x.y, some empty = unset) stands anywhere among the Resolve options, once or twice, a Resolve option may be given again or left out; the model orders its resolver tables alike (the environment is a table answering with parse.EnvConfig). Resolver answers and environment values include text that looks like a reference, an operator or an escape (handed out as it is). The option list of every call comes in one of four layouts (resolver options before or after the Env options, PathSep/VarExp in front or at the end). After every merge each setting is read through Unpack (interface{} field), the String getter and a child handle and compared with the reference evaluator (value, typed pass-through of single references, error for unresolved names, message of :?); then the resolvers' answers, the process environment and the Env configs change under the same Option values and everything is read again. Reads that re-enter a reference are left to C08. The class 'the order of the resolver options decides the read' counts reads whose model value changes when the resolver list is reversed. Non-trivial: a read resolves a name outside the first layer consulted, meets an operator with unset/empty left side, finds a name present in several layers, or happens after a later merge. Distinct: hash of the case.",
 	Gen:  genCase,
 	Run:  runCase,
 })
 
 func TestExpansionModel(t *testing.T) { subExpand.Check(t, 80000, 4000000) }
+
+// ---------------------------------------------------------------------------
+// resolver-kinds: every kind of resolver option in every order, decided by a direct oracle
+
+// KindCase: one name, referenced by five settings, and a list of resolver options of all three kinds.
+type KindCase struct {
+	Name string `json:"name"`
+	// Kinds: the resolver options of the calls in order: 0 / 1 = Resolve(callback A / B), -1 = ResolveEnv,
+	// -2 = ResolveNOOP; a kind may occur more than once
+	Kinds []int `json:"kinds"`
+	// AHas/BHas: the callback knows the name (and answers AVal/BVal, never empty)
+	AHas bool   `json:"a_has,omitempty"`
+	BHas bool   `json:"b_has,omitempty"`
+	AVal string `json:"a_val,omitempty"`
+	BVal string `json:"b_val,omitempty"`
+	// EnvVal: the value of the environment variable called Name ("" = not set)
+	EnvVal string `json:"env_val,omitempty"`
+	// Own / EnvCfg: the own tree / an Env config defines the name as well (then no resolver is asked)
+	Own    bool `json:"own,omitempty"`
+	EnvCfg bool `json:"env_cfg,omitempty"`
+	// ResFirst: the resolver options stand before VarExp and the Env option
+	ResFirst bool `json:"res_first,omitempty"`
+}
+
+const noopResolver = -2
+
+func genKindCase(t *rapid.T) KindCase {
+	c := KindCase{Name: rapid.SampledFrom([]string{"r1", "HOME_X", "o.x", "both"}).Draw(t, "name")}
+	n := rapid.IntRange(1, 4).Draw(t, "nkinds")
+	for i := 0; i < n; i++ {
+		c.Kinds = append(c.Kinds, rapid.SampledFrom([]int{0, envResolver, noopResolver, 1}).Draw(t, "kind"))
+	}
+	vals := []string{"cb", "7", "x:+y", "${r2}", "p;q", "true", "a b"}
+	if c.AHas = rapid.IntRange(0, 3).Draw(t, "ahas") > 0; c.AHas {
+		c.AVal = "A-" + rapid.SampledFrom(vals).Draw(t, "aval")
+	}
+	if c.BHas = rapid.IntRange(0, 2).Draw(t, "bhas") > 0; c.BHas {
+		c.BVal = "B-" + rapid.SampledFrom(vals).Draw(t, "bval")
+	}
+	if rapid.IntRange(0, 3).Draw(t, "envhas") > 0 {
+		c.EnvVal = "E-" + rapid.SampledFrom(vals).Draw(t, "eval")
+	}
+	c.Own = rapid.IntRange(0, 7).Draw(t, "own") == 0
+	c.EnvCfg = rapid.IntRange(0, 7).Draw(t, "envcfg") == 0
+	c.ResFirst = rapid.IntRange(0, 3).Draw(t, "resfirst") == 0
+	return c
+}
+
+// put sets a dotted name in a generic tree.
+func put(m map[string]interface{}, name string, v interface{}) {
+	segs := strings.Split(name, ".")
+	for _, s := range segs[:len(segs)-1] {
+		sub, ok := m[s].(map[string]interface{})
+		if !ok {
+			sub = map[string]interface{}{}
+			m[s] = sub
+		}
+		m = sub
+	}
+	m[segs[len(segs)-1]] = v
+}
+
+func runKindCase(c KindCase, r *runlog.R) error {
+	restore, err := setEnv([]vx.KV{{K: c.Name, V: c.EnvVal}})
+	if err != nil {
+		return err
+	}
+	defer restore()
+	callback := func(has bool, val string) ucfg.Option {
+		return ucfg.Resolve(func(name string) (string, parse.Config, error) {
+			if has && name == c.Name {
+				return val, parse.NoopConfig, nil
+			}
+			return "", parse.NoopConfig, ucfg.ErrMissing
+		})
+	}
+	cbA, cbB := callback(c.AHas, c.AVal), callback(c.BHas, c.BVal)
+	var res []ucfg.Option
+	// the oracle: the own tree, then the Env config, then the resolvers from the most recently added one
+	answer, found, by := "", false, ""
+	for _, k := range c.Kinds {
+		switch k {
+		case 0:
+			res = append(res, cbA)
+		case 1:
+			res = append(res, cbB)
+		case envResolver:
+			res = append(res, ucfg.ResolveEnv)
+		case noopResolver:
+			res = append(res, ucfg.ResolveNOOP)
+		}
+	}
+	knowing := 0
+	for i := len(c.Kinds) - 1; i >= 0; i-- {
+		a, ok, who := "", false, ""
+		switch c.Kinds[i] {
+		case 0:
+			a, ok, who = c.AVal, c.AHas, "a Resolve callback"
+		case 1:
+			a, ok, who = c.BVal, c.BHas, "a Resolve callback"
+		case envResolver:
+			a, ok, who = c.EnvVal, c.EnvVal != "", "ResolveEnv"
+		case noopResolver:
+			// documented: "will return the provided key wrapped with the field reference syntax"
+			a, ok, who = "${"+c.Name+"}", true, "ResolveNOOP"
+		}
+		if ok {
+			knowing++
+			if !found {
+				answer, found, by = a, true, who
+			}
+		}
+	}
+	base := []ucfg.Option{ucfg.PathSep("."), ucfg.VarExp}
+	var opts []ucfg.Option
+	if c.EnvCfg {
+		tree := map[string]interface{}{}
+		put(tree, c.Name, "from-env-config")
+		ec, err := ucfg.NewFrom(tree, base...)
+		if err != nil {
+			return fmt.Errorf("building the Env config failed: %v", err)
+		}
+		opts = append(opts, ucfg.Env(ec))
+		answer, found, by = "from-env-config", true, "the Env config"
+	}
+	if c.ResFirst {
+		opts = append(append(append([]ucfg.Option{}, res...), base...), opts...)
+	} else {
+		opts = append(append(append([]ucfg.Option{}, base...), opts...), res...)
+	}
+	tree := map[string]interface{}{
+		"sole":    "${" + c.Name + "}",
+		"spliced": "v ${" + c.Name + "}!",
+		"dflt":    "${" + c.Name + ":none}",
+		"alt":     "${" + c.Name + ":+yes}",
+		"req":     "${" + c.Name + ":?need it}",
+	}
+	if c.Own {
+		put(tree, c.Name, "from-own-tree")
+		answer, found, by = "from-own-tree", true, "the own tree"
+	}
+	cfg, err := ucfg.NewFrom(tree, opts...)
+	if err != nil {
+		return fmt.Errorf("NewFrom failed: %v", err)
+	}
+	type exp struct {
+		key, want string
+		fails     bool
+	}
+	exps := []exp{
+		{"sole", answer, !found},
+		{"spliced", "v " + answer + "!", !found},
+		{"dflt", answer, false},
+		{"alt", "yes", false},
+		{"req", answer, !found},
+	}
+	if !found {
+		exps[2].want = "none"
+		exps[3].want = ""
+	}
+	var out struct {
+		Sole    *string `config:"sole"`
+		Spliced *string `config:"spliced"`
+		Dflt    *string `config:"dflt"`
+		Alt     *string `config:"alt"`
+		Req     *string `config:"req"`
+	}
+	uerr := uc.Safe("Unpack", func() error { return cfg.Unpack(&out, opts...) })
+	unpacked := map[string]*string{"sole": out.Sole, "spliced": out.Spliced, "dflt": out.Dflt, "alt": out.Alt, "req": out.Req}
+	for _, e := range exps {
+		var gs string
+		var gerr error
+		if err := uc.Safe("String", func() error { gs, gerr = cfg.String(e.key, -1, opts...); return nil }); err != nil {
+			return err
+		}
+		what := fmt.Sprintf("String(%q) with the resolver options %v (expected to be answered by %s)", e.key, c.Kinds, by)
+		if e.fails {
+			if gerr == nil {
+				return fmt.Errorf("%s: nothing knows the name, but the read returned %q", what, gs)
+			}
+			if terr := vx.Typed(what, gerr); terr != nil {
+				return terr
+			}
+			if e.key == "req" && !carries(gerr, "need it") {
+				return fmt.Errorf("%s: failed without carrying the message: %v", what, gerr)
+			}
+			continue
+		}
+		if gerr != nil {
+			return fmt.Errorf("%s: failed: %v, want %q", what, gerr, e.want)
+		}
+		if gs != e.want {
+			return fmt.Errorf("%s: got %q, want %q", what, gs, e.want)
+		}
+		if found && uerr == nil {
+			if p := unpacked[e.key]; p == nil || *p != e.want {
+				return fmt.Errorf("Unpack of %q into a string with the resolver options %v: got %v, want %q", e.key, c.Kinds, show(p), e.want)
+			}
+		}
+	}
+	if found && uerr != nil {
+		return fmt.Errorf("Unpack with the resolver options %v failed although every setting resolves: %v", c.Kinds, uerr)
+	}
+	if !found && uerr == nil {
+		return fmt.Errorf("Unpack with the resolver options %v succeeded although nothing knows %q", c.Kinds, c.Name)
+	}
+	r.Class("answered by " + map[bool]string{true: by, false: "nothing (reads fail)"}[found])
+	r.ClassIf(knowing > 1 && !c.Own && !c.EnvCfg, "several resolver options know the name (their order decides)")
+	has := func(k int) bool {
+		for _, x := range c.Kinds {
+			if x == k {
+				return true
+			}
+		}
+		return false
+	}
+	r.ClassIf(has(noopResolver) && c.Kinds[len(c.Kinds)-1] != noopResolver, "ResolveNOOP followed by other resolver options")
+	r.ClassIf(has(envResolver) && c.Kinds[len(c.Kinds)-1] != envResolver, "ResolveEnv followed by other resolver options")
+	r.ClassIf(c.ResFirst, "resolver options before VarExp and Env")
+	r.NonTrivialIf(knowing > 1 || c.Own || c.EnvCfg || !found)
+	return nil
+}
+
+func show(p *string) string {
+	if p == nil {
+		return "<nil>"
+	}
+	return fmt.Sprintf("%q", *p)
+}
+
+var subKinds = runlog.Register(&runlog.Sub[KindCase]{
+	Name: "resolver-kinds",
+	Rule: "one name (plain, upper-case, dotted) referenced by five settings (${n}, spliced, ${n:d}, ${n:+a}, ${n:?m}) and 1-4 resolver options drawn with repeats from Resolve(callback A), Resolve(callback B), ResolveEnv (process environment variable set or unset for the case) and ResolveNOOP, in every order, before or after VarExp/Env in the option list; one case in eight defines the name in the own tree or in an Env config as well. Direct oracle: own tree, then Env config, then the resolver options from the most recently added to the oldest (a callback that does not know the name and an unset environment variable pass on, ResolveNOOP answers every name with the text ${name}, which is not expanded again). Every setting is read through the String getter and through Unpack into string fields: value, failure when nothing knows the name (typed, :? carries its message). Non-trivial: more than one option knows the name, a tree shadows the resolvers, or nothing knows the name. Distinct: hash of the case.",
+	Gen:  genKindCase,
+	Run:  runKindCase,
+})
+
+func TestResolverKinds(t *testing.T) { subKinds.Check(t, 12000, 400000) }
 
 func TestReplay(t *testing.T) { runlog.ReplayMain(t) }
